@@ -131,6 +131,17 @@ def run_scenario(sc):
                 net.log("t", m["partition"]).leader = m["to"]
                 net.ev("leader_change", partition=m["partition"], to=m["to"])
             loop.call_later(m["at"], mig)
+        for m in sc.get("outages") or []:
+            def down(m=m):
+                for n in (m.get("nodes") or list(net.brokers)):
+                    net.set_up(n, False)
+                net.ev("outage", nodes=m.get("nodes"))
+                if m.get("for") is not None:
+                    def up():
+                        for n in (m.get("nodes") or list(net.brokers)):
+                            net.set_up(n, True)
+                    loop.call_later(m["for"], up)
+            loop.call_later(m["at"], down)
         for m in sc.get("leaderless") or []:
             def off(m=m):
                 lg = net.log("t", m["partition"])
@@ -222,6 +233,21 @@ def run_scenario(sc):
         except asyncio.TimeoutError:
             out["stop"] = {"t": None, "timeout": True}
         out["flush"] = ctl["flushed"]
+        # C19: what is left after stop(), and later API calls
+        for _ in range(5):
+            await asyncio.sleep(0)
+        await asyncio.sleep(0.001)
+        out["pending_tasks"] = sorted({getattr(t.get_coro(), "__qualname__", str(t.get_coro()))
+                                       for t in asyncio.all_tasks(loop)
+                                       if not t.done() and t is not asyncio.current_task()})
+        out["open_transports"] = len(net.open_transports)
+        try:
+            await asyncio.wait_for(p.send("t", b"late", partition=0), timeout=5.0)
+            out["after_stop_send"] = "returned"
+        except asyncio.TimeoutError:
+            out["after_stop_send"] = "hang"
+        except Exception as e:  # noqa: BLE001
+            out["after_stop_send"] = type(e).__name__
         res = []
         for (rid, ti, part, ts, fut, key, val, hdrs) in sends:
             r = {"rid": rid, "task": ti, "p": part, "ts": ts}
